@@ -70,6 +70,9 @@ TResult ==
        \* program's closing operations
        [] sc.op = "recvfail_live" -> /\ Cur.stuck_at = "" /\ Len(Cur.codes) = 4
                                      /\ Cur.codes[1] = 0 /\ Cur.codes[2] \in {3, 8}
+                                     \* C04: the handler, waiting for the next request message, does not see a clean end
+                                     \* of a request stream whose client failed without closing it
+                                     /\ Cur.hend = "error"
        [] sc.op = "client_init_fail" ->
             /\ Cur.reached = 0 /\ Len(Cur.codes) >= 8
             /\ IF sc.used = "badurl"
